@@ -24,7 +24,7 @@ PROFILE = {
                 modes=["random", "multiready", "multiready", "churn", "regchurn", "regchurn", "regchurn", "erronly"], nfd=4),
     "C04": dict(kinds=("tm", "fd", "tk"), quick=300, thorough=5000,
                 modes=["random", "timers", "timers", "timers", "heap", "heap", "tasks"]),
-    "C05": dict(kinds=("tm", "tk"), quick=300, thorough=5000, modes=["random", "timers", "heap", "heap", "heap"]),
+    "C05": dict(kinds=("tm", "tk", "fd"), quick=300, thorough=5000, modes=["random", "timers", "timers", "heap", "heap", "heap"]),
     "C06": dict(kinds=("tk", "fd", "tm", "ev"), quick=300, thorough=5000),
     "C07": dict(kinds=None, quick=260, thorough=4000),
     "C15": dict(kinds=None, quick=220, thorough=3000),
@@ -128,6 +128,8 @@ def run(pid, tier, seed, replay=None):
         if len(verdicts) != len(scripts):
             raise vlib.MachineryError("%d scripts but %d verdicts" % (len(scripts), len(verdicts)))
         mine = [pid] if pid != "C15" else list(CORE_PROPS) + ["C15"]
+        # clauses shared with a neighbouring property, decided by the same monitor rule
+        also = ALSO.get(pid, ())
         bad = collections.OrderedDict()
         nontrivial = set()
         seen_rules = collections.Counter()
@@ -137,7 +139,7 @@ def run(pid, tier, seed, replay=None):
                     seen_rules[s] += 1
                     nontrivial.add(vlib.sha(idx[v["id"]])[:16])
             for r in v["viols"]:
-                if r.split(":")[0] in mine:
+                if r.split(":")[0] in mine or r in also:
                     bad.setdefault(v["id"], []).append(r)
         # confirm violating scripts (at most 12, at least one per rule) by
         # re-running them once, in one batch
@@ -183,6 +185,10 @@ def run(pid, tier, seed, replay=None):
         "TLC evaluates spec/MonCore.tla on every event of every recorded execution"]
     return rep.finish()
 
+
+# C05 "registering or unregistering any timer never changes whether or when any other timer fires":
+# the "when" is decided by the timing rules of C04 on the (multi-timer) programs of the C05 profile
+ALSO = {"C05": ("C04:oversleep", "C04:early")}
 
 # rules whose antecedent must have held at least once in a (non-replay) run
 RULES = {
